@@ -1,4 +1,121 @@
-/- C06 — helper lemmas (to be filled in) -/
+/-
+C06 — helper lemmas for Theorems.lean (no property statement lives here).
+-/
 import FaxVerif.C06.Spec
 namespace FaxVerif.C06
+
+/-! ## whole-word substitution -/
+
+def startsNonWord : Text → Bool
+  | [] => true
+  | c :: _ => !isWordChar c
+
+def endsNonWord (a : Text) : Bool := startsNonWord a.reverse
+
+theorem tokGo_word {c : Char} (h : isWordChar c = true) (acc cs : Text) :
+    tokGo acc (c :: cs) = tokGo (acc ++ [c]) cs := by
+  simp [tokGo, h]
+
+theorem tokGo_nonword {c : Char} (h : isWordChar c = false) (acc cs : Text) :
+    tokGo acc (c :: cs) = flushTok acc ++ ([c] :: tokGo [] cs) := by
+  simp [tokGo, h]
+
+theorem tokGo_append_nonword {c : Char} (hc : isWordChar c = false) (a t : Text) :
+    ∀ acc, tokGo acc (a ++ c :: t) = tokGo acc a ++ ([c] :: tokGo [] t) := by
+  induction a with
+  | nil => intro acc; simp [tokGo, hc]
+  | cons d a ih =>
+    intro acc
+    by_cases hd : isWordChar d = true
+    · simp only [List.cons_append, tokGo_word hd]; exact ih _
+    · have hd' : isWordChar d = false := by simpa using hd
+      simp only [List.cons_append, tokGo_nonword hd', ih, List.append_assoc, List.cons_append]
+
+theorem tokens_append_of_starts (a b : Text) (h : startsNonWord b = true) :
+    tokens (a ++ b) = tokens a ++ tokens b := by
+  cases b with
+  | nil => simp [tokens, tokGo, flushTok]
+  | cons c t =>
+    have hc : isWordChar c = false := by simpa [startsNonWord] using h
+    simp only [tokens, tokGo_append_nonword hc, tokGo_nonword hc, flushTok, List.nil_append]
+
+theorem tokens_append_of_ends (a b : Text) (h : endsNonWord a = true) :
+    tokens (a ++ b) = tokens a ++ tokens b := by
+  rcases List.eq_nil_or_concat a with rfl | ⟨a', c, rfl⟩
+  · simp [tokens, tokGo, flushTok]
+  · have hc : isWordChar c = false := by simpa [endsNonWord, startsNonWord] using h
+    simp only [List.concat_eq_append, List.append_assoc, List.singleton_append, tokens,
+      tokGo_append_nonword hc]
+    simp [tokGo, flushTok]
+
+theorem tokens_append (a b : Text) (h : endsNonWord a = true ∨ startsNonWord b = true) :
+    tokens (a ++ b) = tokens a ++ tokens b := by
+  rcases h with h | h
+  · exact tokens_append_of_ends a b h
+  · exact tokens_append_of_starts a b h
+
+theorem tokGo_allWord (u : Text) (hu : u.all isWordChar = true) : ∀ acc, tokGo acc u = flushTok (acc ++ u) := by
+  induction u with
+  | nil => intro acc; simp [tokGo]
+  | cons c u ih =>
+    intro acc
+    simp only [List.all_cons, Bool.and_eq_true] at hu
+    rw [tokGo_word hu.1, ih hu.2]; simp
+
+theorem tokens_word (u : Text) (hu : u.all isWordChar = true) (hne : u ≠ []) : tokens u = [u] := by
+  simp only [tokens, tokGo_allWord u hu, List.nil_append]
+  cases u with
+  | nil => exact absurd rfl hne
+  | cons c u => rfl
+
+theorem flushTok_flatten (acc : Text) : (flushTok acc).flatten = acc := by
+  cases acc <;> simp [flushTok]
+
+theorem tokGo_flatten (s : Text) : ∀ acc, (tokGo acc s).flatten = acc ++ s := by
+  induction s with
+  | nil => intro acc; simp [tokGo, flushTok_flatten]
+  | cons c s ih =>
+    intro acc
+    by_cases hc : isWordChar c = true
+    · rw [tokGo_word hc, ih]; simp
+    · have hc' : isWordChar c = false := by simpa using hc
+      rw [tokGo_nonword hc']; simp [flushTok_flatten, ih]
+
+theorem tokens_flatten (s : Text) : (tokens s).flatten = s := by
+  simpa [tokens] using tokGo_flatten s []
+
+theorem fill_append (r : Text) (l₁ l₂ : List (Option Text)) : fill r (l₁ ++ l₂) = fill r l₁ ++ fill r l₂ := by
+  induction l₁ with
+  | nil => rfl
+  | cons x l ih => cases x <;> simp [fill, ih]
+
+theorem substWord_append (w r a b : Text) (h : endsNonWord a = true ∨ startsNonWord b = true) :
+    substWord w r (a ++ b) = substWord w r a ++ substWord w r b := by
+  simp [substWord, holes, tokens_append a b h, fill_append]
+
+theorem fill_map_some (r : Text) (l : List Text) : fill r (l.map some) = l.flatten := by
+  induction l with
+  | nil => rfl
+  | cons x l ih => simp [fill, ih]
+
+theorem hasWord_false_iff (w s : Text) : hasWord w s = false ↔ w ∉ tokens s := by
+  simp [hasWord]
+
+theorem substWord_noWord (w r s : Text) (h : hasWord w s = false) : substWord w r s = s := by
+  have hw : w ∉ tokens s := (hasWord_false_iff w s).1 h
+  have : holes w s = (tokens s).map some := by
+    simp only [holes]
+    apply List.map_congr_left
+    intro t ht
+    have : t ≠ w := fun e => hw (e ▸ ht)
+    simp [this]
+  rw [substWord, this, fill_map_some, tokens_flatten]
+
+theorem substWord_self (w r : Text) (hw : w.all isWordChar = true) (hne : w ≠ []) : substWord w r w = r := by
+  simp [substWord, holes, tokens_word w hw hne, fill]
+
+theorem hasWord_append (w a b : Text) (h : endsNonWord a = true ∨ startsNonWord b = true) :
+    hasWord w (a ++ b) = (hasWord w a || hasWord w b) := by
+  simp [hasWord, tokens_append a b h]
+
 end FaxVerif.C06
